@@ -253,7 +253,9 @@ class CustomState(BaseState):
         """
         if self.index is not None:
             assert isinstance(self.composite_envelope, CompositeEnvelope)
-            return self.composite_envelope.measure_POVM(operators, self)
+            return self.composite_envelope.measure_POVM(
+                operators, self, destructive=destructive
+            )
 
         for op in operators:
             assert op.shape == (self.dimensions, self.dimensions)
